@@ -33,7 +33,9 @@
 
    Bug switches (negative configs): Mutex = FALSE (UpsertHash without hashesMutex), ErrsCloser =
    "dispatcher" (errs closed as soon as the events are drained, before the workers finish),
-   MainReadsErrs = FALSE (main waits for the wait groups before reading errs), SkipRule (the walker does not
+   MainReadsErrs = FALSE (main waits for the wait groups before reading errs), SlotRelease = "onsuccess" (a
+   worker that failed never releases its semaphore slot: with as many failing files as workers the dispatcher
+   blocks forever), GenVariants = {1, 2} (the generator is not a function of the file), SkipRule (the walker does not
    skip dot / underscore directories; compares with HasSuffix / HasPrefix / case-insensitively instead of
    equality; looks for "." / "_" anywhere in the name instead of at its start).                  *)
 EXTENDS Integers, Sequences, FiniteSets, TLC, Json, SequencesExt
@@ -44,6 +46,9 @@ CONSTANTS Trees,          \* set of initial trees; a tree is a set of files [dir
           Mutex,          \* TRUE: UpsertHash is one critical section
           ErrsCloser,     \* "postgen" (as coded) | "dispatcher"
           MainReadsErrs,  \* TRUE (as coded)
+          GenVariants,    \* {1}: generating a file is a function of its contents (as it must be); {1, 2}: the generator is
+                          \* nondeterministic (e.g. it ranges over a Go map): every generation picks one of the variants
+          SlotRelease,    \* "deferred" (as coded: defer func() { <-sem }()) | "onsuccess" (the error path keeps its slot)
           SkipRule,       \* "coded" | "nounderscore" | "nodot" | "suffix" | "prefix" | "foldcase" | "contains"
           TwoRuns,        \* TRUE: compose a second run
           EmitCases       \* TRUE: print one record per terminated behaviour
@@ -256,7 +261,8 @@ WHash2(i) ==
 WWrite(i) ==
     /\ wk[i].pc = "write"
     /\ LET t == <<evs[i][1], SibOf(evs[i][2])>> IN
-       fs' = [x \in (DOMAIN fs) \cup {t} |-> IF x = t THEN [c |-> GenContent, m |-> clock] ELSE fs[x]]
+       \E v \in GenVariants :       \* variant 1 is "the" generation of the file alone; any other is a different byte sequence
+          fs' = [x \in (DOMAIN fs) \cup {t} |-> IF x = t THEN [c |-> IF v = 1 THEN GenContent ELSE "other-generation", m |-> clock] ELSE fs[x]]
     /\ clock' = clock          \* every write of one run lands after all initial files; runs are separated below
     /\ Set(i, "finish", FALSE, FALSE)
     /\ lbl' = [op |-> "write", i |-> i]
@@ -287,7 +293,8 @@ WPost(i) ==
 \* deferred: <-sem ; eventsWG.Done()
 WFinish(i) ==
     /\ wk[i].pc = "finish"
-    /\ sem' = sem - 1 /\ wg' = wg - 1
+    /\ sem' = (IF SlotRelease = "onsuccess" /\ wk[i].err THEN sem ELSE sem - 1)    \* negative config: slot leaked on the error path
+    /\ wg' = wg - 1
     /\ Set(i, "done", wk[i].err, wk[i].post)
     /\ lbl' = [op |-> "end", i |-> i]
     /\ UNCHANGED <<tree0, flags, W, fs, run, fs1, st1, evs, nextev, wpc, dpc, dcur, lastMod, hashes, inHash, race,
